@@ -78,6 +78,28 @@ func c20Run(j c20Job) *jobReport {
 			for d := -434; d <= 434; d++ {
 				ts := int64(now) + int64(d)
 				if ts < 0 {
+					// the pair (now, now+d mod 2^32): mathematically 2^32+d slots ahead of the clock, circularly only
+					// |d| away. It must be turned away by the acceptance comparison (auxiliary observable: the log
+					// line, as in part high) and must not be stored.
+					logPath := filepath.Join(w.Dir, "server.log")
+					fi, _ := os.Stat(logPath)
+					var sz int64
+					if fi != nil {
+						sz = fi.Size()
+					}
+					got, p := c20Accepts(w, uint32(ts+1<<32))
+					rep.Evals++
+					if p != "" {
+						rep.fail("panic/low-end-wrapped", p)
+						w.Abandon()
+						return rep
+					}
+					lb, _ := os.ReadFile(logPath)
+					passed := int64(len(lb)) >= sz && !strings.Contains(string(lb[sz:]), "out of bounds timeslot")
+					if got || passed {
+						rep.fail("window-comparison-wrong/wrap-around-low", map[string]interface{}{"now": now, "timeslot": ts + 1<<32, "stored": got, "passed_acceptance_comparison": passed, "mathematically": false})
+					}
+					rep.Reasons[fmt.Sprintf("low wrapped passed=%v", passed)]++
 					continue
 				}
 				want := d >= -432 && d <= 432 && ts < mWindow
@@ -184,10 +206,13 @@ func c20Run(j c20Job) *jobReport {
 			}
 			for d := -434; d <= 434; d++ {
 				ts := int64(now) + int64(d)
-				if ts > 1<<32-1 {
-					continue
-				}
 				want := d >= -432 && d <= 432
+				wrapped := false
+				if ts > 1<<32-1 {
+					// the pair (now, now+d mod 2^32): a timeslot almost 2^32 slots behind the clock, circularly d away
+					ts -= 1 << 32
+					want, wrapped = false, true
+				}
 				fi, _ := os.Stat(logPath)
 				var p string
 				p = safely(func() { sw.S.VerifInjectDatagram(signedReport(1, uint32(ts), 2, a.Priv)) })
@@ -206,9 +231,13 @@ func c20Run(j c20Job) *jobReport {
 					return rep
 				}
 				if got != want {
-					rep.fail("window-comparison-wrong/high-end", map[string]interface{}{"now": now, "timeslot": ts, "passed_acceptance_comparison": got, "mathematically": want, "log": tail})
+					sig := "window-comparison-wrong/high-end"
+					if wrapped {
+						sig = "window-comparison-wrong/wrap-around-high"
+					}
+					rep.fail(sig, map[string]interface{}{"now": now, "timeslot": ts, "passed_acceptance_comparison": got, "mathematically": want, "log": tail})
 				}
-				rep.Reasons[fmt.Sprintf("high passed=%v", got)]++
+				rep.Reasons[fmt.Sprintf("high wrapped=%v passed=%v", wrapped, got)]++
 			}
 			sw.Close()
 		}
@@ -671,7 +700,7 @@ func init() {
 		}
 		run.Coverage["evaluations"] = tsEvals + int64(evals)
 		run.Coverage["distinct_nontrivial"] = slots
-		run.Coverage["rule"] = "(a) production-tag binary: UnixToTimeslot/TimeslotToUnix for every timeslot 0..14316557 at slot start, +1 s and +299 s (thorough: every second of the 2^32-second domain), 1000 seconds before genesis and far earlier times; round trip to slot start, exact slot, monotone, pre-genesis refused; distinct = timeslots covered; (b) production constants read from the production build, CurrentTimeslot against the shimmed clock at 53 instants; (c) acceptance of own-key reports at every distance -434..+434 from the clock at both uint32 extremes on a live server (high end via a crafted zero-device history record), compared with the int64-exact predicate; the same sweep through stored reports in a window straddling 2^31; (d) all states (now-offset, timer phase) of the rotation cadence under the production period with trigger, start-up threshold, half-width and window measured from the running implementation; model traces replayed against the real rotation loop"
+		run.Coverage["rule"] = "(a) production-tag binary: UnixToTimeslot/TimeslotToUnix for every timeslot 0..14316557 at slot start, +1 s and +299 s (thorough: every second of the 2^32-second domain), 1000 seconds before genesis and far earlier times; round trip to slot start, exact slot, monotone, pre-genesis refused; distinct = timeslots covered; (b) production constants read from the production build, CurrentTimeslot against the shimmed clock at 53 instants; (c) acceptance of own-key reports at every distance -434..+434 from the clock at both uint32 extremes on a live server (high end via a crafted zero-device history record), compared with the int64-exact predicate, including the pairs whose sum now+d leaves the 32-bit range (timeslot = now+d mod 2^32: circularly near, mathematically 2^32-|d| away, must be turned away); the same sweep through stored reports in a window straddling 2^31; (d) all states (now-offset, timer phase) of the rotation cadence under the production period with trigger, start-up threshold, half-width and window measured from the running implementation; model traces replayed against the real rotation loop"
 		run.Sample(map[string]interface{}{"genesis": pc.GenesisTime, "period": pc.Server.ReportMigrationFrequency.String(), "measured": meas})
 		run.Assumption("the rotation loop's timer fires when its period has elapsed or at most one slot late; the window check at the high end of uint32 needs a crafted history file to reach")
 		rc := run.Finish()
